@@ -373,6 +373,24 @@ func (c *Ctx) RuleResolve() *Result {
 							if h := holder(fa, x); h != nil {
 								nameField = h
 							}
+							// a field of the record the function returns: go on with what the callers read from it
+							if al, isLocal := fa.X.(*ssa.Alloc); isLocal && x.Val == v {
+								for _, rd := range c.readsOfReturnedField(al, fa.Field) {
+									walk(rd, d+1)
+								}
+							}
+						}
+					}
+				}
+				// the read of the field, stored on
+				if _, _, isRead := fieldRead(v); isRead {
+					for _, r := range referrers(v) {
+						if st, ok := r.(*ssa.Store); ok && st.Val == v {
+							if fa, ok := st.Addr.(*ssa.FieldAddr); ok {
+								if h := holder(fa, st); h != nil {
+									nameField = h
+								}
+							}
 						}
 					}
 				}
@@ -553,7 +571,9 @@ func (c *Ctx) RuleResolve() *Result {
 							}
 						}
 					}
-					if okUse {
+					if !okUse && onlyLogged(ld, 0) {
+						res.ok(key, pos, "only written to the log")
+					} else if okUse {
 						res.ok(key, pos, "joined below AssemblyDir()")
 					} else if len(referrers(ld)) == 0 {
 						res.ok(key, pos, "unused load")
@@ -922,22 +942,36 @@ func (c *Ctx) RuleResolve() *Result {
 				})
 				return found
 			}
-			allInstrs(sf, func(in2 ssa.Instruction) {
-				if c2, ok := in2.(*ssa.Call); ok {
-					if isFn(staticCallee(&c2.Call), "os", "Stat") {
-						hasStat = true
-					} else if g := staticFn(&c2.Call); g != nil && c.P.IsRepoFn(g) && callsStat(g, 0) {
-						hasStat = true
-					}
-				}
-				for _, op := range in2.Operands(nil) {
-					if op != nil && *op != nil {
-						if s, ok := constString(*op); ok && s == "regex-assembly" {
-							hasConst = true
+			var scan func(f *ssa.Function, d int)
+			scan = func(f *ssa.Function, d int) {
+				allInstrs(f, func(in2 ssa.Instruction) {
+					if c2, ok := in2.(*ssa.Call); ok {
+						if isFn(staticCallee(&c2.Call), "os", "Stat") {
+							hasStat = true
+						} else if g := staticFn(&c2.Call); g != nil && c.P.IsRepoFn(g) {
+							if callsStat(g, 0) {
+								hasStat = true
+							}
+							// the search itself may sit one call further down (a method on the probing function)
+							if d < 2 && len(g.Blocks) > 0 {
+								scan(g, d+1)
+							}
 						}
 					}
-				}
-			})
+					for _, op := range in2.Operands(nil) {
+						if op != nil && *op != nil {
+							if s, ok := constString(*op); ok && s == "regex-assembly" {
+								hasConst = true
+							}
+							// the probe handed on as a function value
+							if pf, ok := (*op).(*ssa.Function); ok && c.P.IsRepoFn(pf) && len(pf.Blocks) > 0 && callsStat(pf, 0) {
+								hasStat = true
+							}
+						}
+					}
+				})
+			}
+			scan(sf, 0)
 			// its argument is the absolute form of the flag value
 			if a, ok := rc.Call.Args[0].(*ssa.Extract); ok {
 				if ac, ok := a.Tuple.(*ssa.Call); ok && isFn(staticCallee(&ac.Call), "path/filepath", "Abs") && hasStat && hasConst {
@@ -1382,17 +1416,78 @@ func (c *Ctx) capturedParts(fn *ssa.Function, v ssa.Value, depth int) int {
 			continue
 		}
 		for _, sm := range c.submatchSites() {
-			if sm.fn != fn || sm.pattern == nil {
+			if sm.pattern == nil {
 				continue
 			}
 			for _, u := range sm.uses {
-				if u.val != nil && u.val == op && u.group > 0 {
+				// uses in fn itself, or uses of a match that a helper handed back to fn
+				if (sm.fn == fn || u.inFn == fn) && u.val != nil && u.val == op && u.group > 0 {
 					groups++
 				}
 			}
 		}
 	}
 	return groups
+}
+
+// readsOfReturnedField: al is a local struct of a function that returns its value (a composite
+// literal handed back as a result); the values the callers read from field i of that result.
+func (c *Ctx) readsOfReturnedField(al *ssa.Alloc, field int) []ssa.Value {
+	fn := al.Parent()
+	ri := -1
+	allInstrs(fn, func(in ssa.Instruction) {
+		if r, ok := in.(*ssa.Return); ok {
+			for i, rv := range r.Results {
+				if ld, ok := stripConv(rv).(*ssa.UnOp); ok && ld.X == ssa.Value(al) {
+					ri = i
+				}
+			}
+		}
+	})
+	if ri < 0 {
+		return nil
+	}
+	var out []ssa.Value
+	for _, e := range c.Graph().In[fn] {
+		call, ok := e.Site.(*ssa.Call)
+		if !ok || staticFn(&call.Call) != fn {
+			continue
+		}
+		var got []ssa.Value
+		if fn.Signature.Results().Len() == 1 {
+			got = append(got, call)
+		} else {
+			for _, r := range referrers(call) {
+				if ex, ok := r.(*ssa.Extract); ok && ex.Index == ri {
+					got = append(got, ex)
+				}
+			}
+		}
+		for _, g := range got {
+			for _, r := range referrers(g) {
+				switch x := r.(type) {
+				case *ssa.Field:
+					if x.Field == field {
+						out = append(out, x)
+					}
+				case *ssa.Store:
+					// kept in a local struct variable
+					if loc, ok := x.Addr.(*ssa.Alloc); ok && x.Val == g {
+						for _, rr := range referrers(loc) {
+							if fa, ok := rr.(*ssa.FieldAddr); ok && fa.Field == field {
+								for _, r3 := range referrers(fa) {
+									if ld, ok := r3.(*ssa.UnOp); ok && ld.Op == token.MUL {
+										out = append(out, ld)
+									}
+								}
+							}
+						}
+					}
+				}
+			}
+		}
+	}
+	return out
 }
 
 // frameThroughHelper: FRAME when the split happens in a helper H that returns
@@ -1403,7 +1498,7 @@ func (c *Ctx) capturedParts(fn *ssa.Function, v ssa.Value, depth int) int {
 func (c *Ctx) frameThroughHelper(ws *writeSite, join *ssa.Call) (why string, done bool) {
 	ex, ok := join.Call.Args[0].(*ssa.Extract)
 	if !ok {
-		return "", false
+		return c.frameThroughRecord(ws, join)
 	}
 	hc, ok := ex.Tuple.(*ssa.Call)
 	if !ok {
@@ -1505,6 +1600,124 @@ func (c *Ctx) frameThroughHelper(ws *writeSite, join *ssa.Call) (why string, don
 				if k, ok := constInt(ia.Index); ok && k > 0 {
 					groups++
 				}
+			}
+		}
+		if groups < 2 {
+			problems = append(problems, "the line that is assigned is not put together from the text before and after the operand as captured by the rule-line pattern: what is replaced is found some other way (first occurrence of the old text, fixed offsets) and can hit another part of the line")
+		}
+	}
+	return strings.Join(uniq(problems), "; "), true
+}
+
+// frameThroughRecord: FRAME when the helper hands back one record (a struct by value) that holds
+// the lines, the index and the captured parts: the same conditions as frameThroughHelper, read
+// through the fields of the record.
+func (c *Ctx) frameThroughRecord(ws *writeSite, join *ssa.Call) (why string, done bool) {
+	base, fLines, ok := fieldRead(stripConv(join.Call.Args[0]))
+	if !ok {
+		return "", false
+	}
+	callOf := func(v ssa.Value) *ssa.Call {
+		switch x := stripConv(v).(type) {
+		case *ssa.Call:
+			return x
+		case *ssa.Extract:
+			hc, _ := x.Tuple.(*ssa.Call)
+			return hc
+		}
+		return nil
+	}
+	hc := callOf(base)
+	if hc == nil {
+		return "", false
+	}
+	lineVals, H := c.structResultField(base, fLines)
+	if H == nil || len(lineVals) == 0 {
+		return "", false
+	}
+	pathV := ws.cc.Args[ws.prim.pathArg]
+	pi := -1
+	for i, a := range hc.Call.Args {
+		if a == pathV {
+			pi = i
+		}
+	}
+	if pi < 0 || pi >= len(H.Params) {
+		return "the helper that yields the lines is not handed the path that is written", true
+	}
+	var problems []string
+	sepJoin, okJ := constString(stripConv(join.Call.Args[1]))
+	for _, lv := range lineVals {
+		sp, ok := stripConv(lv).(*ssa.Call)
+		if !ok || !isFn(staticCallee(&sp.Call), "bytes", "Split") {
+			problems = append(problems, "the helper does not return bytes.Split of the file's contents as the lines")
+			continue
+		}
+		sepSplit, okS := constString(stripConv(sp.Call.Args[1]))
+		if !okJ || !okS || sepJoin != sepSplit {
+			problems = append(problems, fmt.Sprintf("split separator %q and join separator %q differ: every line ending of the file changes", sepSplit, sepJoin))
+		}
+		if cx, ok := sp.Call.Args[0].(*ssa.Extract); !ok || cx.Index != 0 {
+			problems = append(problems, "the text split is not what was read from the file")
+		} else if rc, ok := cx.Tuple.(*ssa.Call); !ok || !isFn(staticCallee(&rc.Call), "os", "ReadFile") || rc.Call.Args[0] != ssa.Value(H.Params[pi]) {
+			problems = append(problems, "the text split was not read from the path that is written")
+		}
+		for _, rr := range referrers(sp) {
+			if ia, ok := rr.(*ssa.IndexAddr); ok {
+				for _, r3 := range referrers(ia) {
+					if st, ok := r3.(*ssa.Store); ok && st.Addr == ssa.Value(ia) {
+						problems = append(problems, "the helper itself assigns a line")
+					}
+				}
+			}
+		}
+	}
+	// the caller assigns exactly one element of the record's lines
+	stores := 0
+	var assigned ssa.Value
+	allInstrs(ws.fn, func(in ssa.Instruction) {
+		st, ok := in.(*ssa.Store)
+		if !ok {
+			return
+		}
+		ia, ok := st.Addr.(*ssa.IndexAddr)
+		if !ok {
+			return
+		}
+		if b2, f2, ok := fieldRead(stripConv(ia.X)); ok && f2 == fLines && callOf(b2) == hc {
+			stores++
+			assigned = st.Val
+		}
+	})
+	if stores != 1 {
+		problems = append(problems, fmt.Sprintf("%d line elements are assigned instead of exactly one", stores))
+	} else {
+		groups := 0
+		for _, op := range stringOperands(stripConv(assigned), 0) {
+			b2, f2, ok := fieldRead(stripConv(op))
+			if !ok || callOf(b2) != hc {
+				continue
+			}
+			vals, _ := c.structResultField(b2, f2)
+			captured := len(vals) > 0
+			for _, v := range vals {
+				isGroup := false
+				for _, sm := range c.submatchSites() {
+					if sm.pattern == nil || sm.pattern.NumCap() < 3 {
+						continue
+					}
+					for _, u := range sm.uses {
+						if u.val != nil && u.val == stripConv(v) && u.group > 0 {
+							isGroup = true
+						}
+					}
+				}
+				if !isGroup {
+					captured = false
+				}
+			}
+			if captured {
+				groups++
 			}
 		}
 		if groups < 2 {
@@ -1632,4 +1845,47 @@ func spilledParam(al *ssa.Alloc) *ssa.Parameter {
 		return p
 	}
 	return nil
+}
+
+// onlyLogged: every use of v is an argument of a zerolog call (directly, or in the argument list of Msgf).
+func onlyLogged(v ssa.Value, d int) bool {
+	if d > 4 {
+		return false
+	}
+	n := 0
+	for _, r := range referrers(v) {
+		switch x := r.(type) {
+		case *ssa.DebugRef:
+		case *ssa.MakeInterface:
+			n++
+			if !onlyLogged(x, d+1) {
+				return false
+			}
+		case *ssa.Store:
+			// the variadic slot of Msgf
+			ia, ok := x.Addr.(*ssa.IndexAddr)
+			if !ok || x.Val != v {
+				return false
+			}
+			al, ok := ia.X.(*ssa.Alloc)
+			if !ok {
+				return false
+			}
+			n++
+			for _, r2 := range referrers(al) {
+				if sl, ok := r2.(*ssa.Slice); ok && !onlyLogged(sl, d+1) {
+					return false
+				}
+			}
+		case *ssa.Call:
+			f := staticCallee(&x.Call)
+			if f == nil || objPkgPath(f) != zerologPkg {
+				return false
+			}
+			n++
+		default:
+			return false
+		}
+	}
+	return n > 0
 }
